@@ -1,467 +1,7 @@
-/-
-  Tie #1 (DESIGN.md §2.4): the facts regenerated from /repo's working tree on every run
-  (Jmes/Generated/*.lean, written by harness/cmd/facts) agree with the hand-written model and with the
-  recorded expectations.  A changed binding power, a new write to shared memory, a changed error mapping or a
-  changed numeric type switch breaks one of these proof obligations before any random input has to hit it.
-  The tag in brackets lists the properties an obligation serves.
--/
-import Jmes.Generated.Tables
-import Jmes.Generated.Effects
-import Jmes.Model.Api
-namespace Jmes.Tie
-open Jmes.Generated
-
-def tokOfName : String → Option TokenType
-  | "UnknownToken" => some .unknown
-  | "EndToken" => some .«end»
-  | "OpenBraceToken" => some .openBrace
-  | "CloseBraceToken" => some .closeBrace
-  | "OpenParenToken" => some .openParen
-  | "CloseParenToken" => some .closeParen
-  | "OpenSqBraceToken" => some .openSqBrace
-  | "CloseSqBraceToken" => some .closeSqBrace
-  | "AddToken" => some .add
-  | "AndToken" => some .and
-  | "ArrayWildcardToken" => some .arrayWildcard
-  | "AssignToken" => some .assign
-  | "AsteriskToken" => some .asterisk
-  | "ColonToken" => some .colon
-  | "CommaToken" => some .comma
-  | "DivideToken" => some .divide
-  | "DotToken" => some .dot
-  | "EqualToken" => some .equal
-  | "FilterToken" => some .filter
-  | "FlattenToken" => some .flatten
-  | "InToken" => some .«in»
-  | "GreaterToken" => some .greater
-  | "GreaterOrEqualToken" => some .greaterOrEqual
-  | "IntegerDivideToken" => some .integerDivide
-  | "LessToken" => some .less
-  | "LessOrEqualToken" => some .lessOrEqual
-  | "LetToken" => some .«let»
-  | "ModuloToken" => some .modulo
-  | "MultiplyToken" => some .multiply
-  | "NotToken" => some .not
-  | "NotEqualToken" => some .notEqual
-  | "ObjectWildcardToken" => some .objectWildcard
-  | "OrToken" => some .or
-  | "PipeToken" => some .pipe
-  | "SubtractToken" => some .subtract
-  | "CurrentToken" => some .current
-  | "ExpressionToken" => some .expression
-  | "IntegerLiteralToken" => some .integerLiteral
-  | "JSONLiteralToken" => some .jsonLiteral
-  | "QuotedIdentifierToken" => some .quotedIdentifier
-  | "RootToken" => some .root
-  | "UnquotedIdentifierToken" => some .unquotedIdentifier
-  | "StringLiteralToken" => some .stringLiteral
-  | "VariableToken" => some .variable
-  | _ => none
-
-/-- equal as sets: the order of the cases of a Go type switch / rune switch carries no meaning -/
-def sameSet {α} [BEq α] (a b : List α) : Bool := a.all (b.contains ·) && b.all (a.contains ·)
-
-def allTokens : List TokenType := [.unknown, .«end», .openBrace, .closeBrace, .openParen, .closeParen, .openSqBrace, .closeSqBrace, .add, .and, .arrayWildcard, .assign, .asterisk, .colon, .comma, .divide, .dot, .equal, .filter, .flatten, .«in», .greater, .greaterOrEqual, .integerDivide, .less, .lessOrEqual, .«let», .modulo, .multiply, .not, .notEqual, .objectWildcard, .or, .pipe, .subtract, .current, .expression, .integerLiteral, .jsonLiteral, .quotedIdentifier, .root, .unquotedIdentifier, .stringLiteral, .variable]
-
-set_option maxRecDepth 100000
-
-/-- [C01, C04, C10] every row of Go's `precedence` switch is the model's binding power -/
-theorem precedence_rows :
-    precedenceTable.all (fun r => match tokOfName r.1 with
-      | some t => precedence t == r.2
-      | none => false) = true := by decide
-
-/-- [C01, C04, C10] …and every token the Go switch does not list has binding power 0 in the model -/
-theorem precedence_default :
-    allTokens.all (fun t => precedenceTable.any (fun r => tokOfName r.1 == some t) || precedence t == 0) = true := by decide
-
-/-- [C01, C17] one projection power, used by every call of `parser.projection` -/
-theorem projection_power :
-    (Generated.projectionPrecedence == Jmes.projectionPrecedence
-      && projectionCalls.all (fun c => c.2 == "projectionPrecedence")) = true := by decide
-
-/-- [C04] the token kinds of token.go are exactly the model's -/
-theorem token_kinds : (tokenTypes.map tokOfName == allTokens.map some) = true := by decide
-
-/-- shape of a Go argument parser -/
-def argShape : String → Option (Nat × Option Nat × Nat)   -- (min, max, special: 0 none, 1 exp, 2 map, 3 var)
-  | "function1Arg" => some (1, some 1, 0)
-  | "function1To2Arg" => some (1, some 2, 0)
-  | "function2Arg" => some (2, some 2, 0)
-  | "function2To3Arg" => some (2, some 3, 0)
-  | "function2To4Arg" => some (2, some 4, 0)
-  | "function3To4Arg" => some (3, some 4, 0)
-  | "function2ExpArg" => some (2, some 2, 1)
-  | "function2MapArg" => some (2, some 2, 2)
-  | "functionVarArg" => some (1, none, 3)
-  | _ => none
-
-def specShape : Parser.ArgSpec → Nat × Option Nat × Nat
-  | .fixed mn mx _ => (mn, some mx, 0)
-  | .expArg _ => (2, some 2, 1)
-  | .mapArg _ => (2, some 2, 2)
-  | .varArg _ => (1, none, 3)
-
-/-- [C02, C08] the builtin table: same names in the same order, same arity class for each -/
-theorem builtin_names : (builtins.map (fun r => r.2.1) == Parser.builtinTable.map (·.1)) = true := by decide
-
-/-- [C02, C08] arity classes -/
-theorem builtin_arities :
-    builtins.all (fun r => match Parser.lookupBuiltin r.2.1, argShape r.2.2.1 with
-      | some spec, some sh => specShape spec == sh
-      | _, _ => false) = true := by decide
-
-/-- name of the Go node type the model's constructor mirrors -/
-def nodeName : INode → String
-  | .call f _ => (match f with
-    | .abs => "AbsNode" | .avg => "AvgNode" | .ceil => "CeilNode" | .contains => "ContainsNode" | .endsWith => "EndsWithNode"
-    | .findFirst => "FindFirstNode" | .findFirstBetween => "FindFirstBetweenNode" | .findFirstFrom => "FindFirstFromNode"
-    | .findLast => "FindLastNode" | .findLastBetween => "FindLastBetweenNode" | .findLastFrom => "FindLastFromNode"
-    | .floor => "FloorNode" | .fromItems => "FromItemsNode" | .items => "ItemsNode" | .join => "JoinNode" | .keys => "KeysNode"
-    | .length => "LengthNode" | .lower => "LowerNode" | .max => "MaxNode" | .min => "MinNode" | .padLeft => "PadLeftNode"
-    | .padRight => "PadRightNode" | .padSpaceLeft => "PadSpaceLeftNode" | .padSpaceRight => "PadSpaceRightNode"
-    | .replace => "ReplaceNode" | .replaceCount => "ReplaceCountNode" | .reverse => "ReverseNode" | .sort => "SortNode"
-    | .split => "SplitNode" | .splitCount => "SplitCountNode" | .startsWith => "StartsWithNode" | .sum => "SumNode"
-    | .toArray => "ToArrayNode" | .toNumber => "ToNumberNode" | .toString => "ToStringNode" | .trim => "TrimNode"
-    | .trimLeft => "TrimLeftNode" | .trimRight => "TrimRightNode" | .trimSpace => "TrimSpaceNode"
-    | .trimSpaceLeft => "TrimSpaceLeftNode" | .trimSpaceRight => "TrimSpaceRightNode" | .type => "TypeNode"
-    | .upper => "UpperNode" | .values => "ValuesNode")
-  | .groupBy .. => "GroupByNode" | .map .. => "MapNode" | .maxBy .. => "MaxByNode" | .minBy .. => "MinByNode"
-  | .sortBy .. => "SortByNode" | .merge .. => "MergeNode" | .notNull .. => "NotNullNode" | .zip .. => "ZipNode"
-  | _ => "?"
-
-/-- the nodes the model builds for each accepted argument count -/
-def builtNodes : Parser.ArgSpec → List String
-  | .fixed mn mx mk => (List.range (mx + 1 - mn)).map (fun i => nodeName (mk (List.replicate (mn + i) .current)))
-  | .expArg mk => [nodeName (mk .current .current)]
-  | .mapArg mk => [nodeName (mk .current .current)]
-  | .varArg mk => [nodeName (mk [.current])]
-
-/-- [C02] for every builtin and every accepted argument count the model builds the node Go builds
-    (Go's source lists them by increasing count, except that `trim…`/`pad…`/`split`/`replace` list the short form
-    first as well — compared as sets in source order) -/
-theorem builtin_nodes :
-    builtins.all (fun r => match Parser.lookupBuiltin r.2.1 with
-      | some spec => (builtNodes spec).all (fun n => r.2.2.2.contains n) && r.2.2.2.all (fun n => (builtNodes spec).contains n)
-      | none => false) = true := by decide
-
-/-- [C08] the error-mapping functions and every `Is` method are the recorded ones … -/
-theorem parse_error_map : (parseErrorMap == [
-  ("InvalidFunctionArgumentError", "invalidTypeError"),
-  ("InvalidFunctionCallError", "invalidFunctionCallError"),
-  ("InvalidSliceStepError", "invalidSliceStepError"),
-  ("UnknownFunctionError", "unknownFunctionError"),
-  ("<fallback>", "invalidExpressionError")]) = true := by decide
-
-/-- [C08] evaluateError as recorded -/
-theorem evaluate_error_map : (evaluateErrorMap == [
-  ("ErrInvalidType", "invalidTypeError"),
-  ("ErrInvalidValue", "invalidValueError"),
-  ("ErrInfinity", "infinityError"),
-  ("ErrNotANumber", "notANumberError"),
-  ("UndefinedVariableError", "undefinedVariableError"),
-  ("<fallback>", "evaluationFailedError")]) = true := by decide
-
-/-- [C08] every Is method as recorded -/
-theorem is_table : (isTable == [
-  ("evaluator", "InvalidTypeError", "ErrInvalidType"),
-  ("evaluator", "UndefinedVariableError", "ErrUndefinedVariable"),
-  ("evaluator", "fromItemsKeyTypeError", "ErrInvalidValue"),
-  ("evaluator", "fromItemsLengthError", "ErrInvalidValue"),
-  ("evaluator", "integerConversionError", "ErrInvalidValue"),
-  ("evaluator", "negativeIntegerError", "ErrInvalidValue"),
-  ("evaluator", "padLengthError", "ErrInvalidValue"),
-  ("jmespath", "evaluationFailedError", "ErrEvaluationFailed"),
-  ("jmespath", "infinityError", "ErrNotANumber"),
-  ("jmespath", "invalidExpressionError", "ErrSyntax"),
-  ("jmespath", "invalidFunctionCallError", "ErrInvalidArity"),
-  ("jmespath", "invalidSliceStepError", "ErrInvalidValue"),
-  ("jmespath", "invalidTypeError", "ErrInvalidType"),
-  ("jmespath", "invalidValueError", "ErrInvalidValue"),
-  ("jmespath", "notANumberError", "ErrNotANumber"),
-  ("jmespath", "undefinedVariableError", "ErrUndefinedVariable"),
-  ("jmespath", "unknownFunctionError", "ErrUnknownFunction")]) = true := by decide
-
-/-- which public sentinel an error type of package jmespath matches -/
-def sentinelCat : String → Option Cat
-  | "ErrSyntax" => some .syntax | "ErrInvalidArity" => some .arity | "ErrUnknownFunction" => some .unknownFunction
-  | "ErrInvalidType" => some .invalidType | "ErrInvalidValue" => some .invalidValue | "ErrNotANumber" => some .notANumber
-  | "ErrUndefinedVariable" => some .undefinedVariable | "ErrEvaluationFailed" => some .evaluationFailed
-  | _ => none
-
-def publicCat (ty : String) : Option Cat :=
-  match isTable.find? (fun r => r.1 == "jmespath" && r.2.1 == ty) with
-  | some r => sentinelCat r.2.2
-  | none => none
-
-def perrGoName : PErr → String
-  | .invalidFunctionArgument => "InvalidFunctionArgumentError"
-  | .invalidFunctionCall => "InvalidFunctionCallError"
-  | .invalidSliceStep => "InvalidSliceStepError"
-  | .unknownFunction => "UnknownFunctionError"
-  | _ => "<fallback>"
-
-/-- [C08] … and composing Go's `parseError` with the `Is` methods gives the model's `parseCat` for every parser error -/
-theorem parse_cat_tie :
-    [PErr.lex .invalidRune, .lex .unexpectedEnd, .lex (.unexpectedRune 0), .unexpectedToken, .invalidFunctionArgument,
-     .invalidFunctionCall, .invalidSliceStep, .unknownFunction, .invalidIndex, .invalidJSONLiteral, .invalidQuotedString].all
-      (fun e => match parseErrorMap.find? (fun r => r.1 == perrGoName e) with
-        | some r => publicCat r.2 == some (parseCat e)
-        | none => false) = true := by decide
-
-/-- [C08] every public error type matches exactly one sentinel, and the evaluator's categories map as the model says -/
-theorem evaluate_cat_tie :
-    (evaluateErrorMap.map (fun r => publicCat r.2)
-      == [some Cat.invalidType, some .invalidValue, some .notANumber, some .notANumber, some .undefinedVariable,
-          some .evaluationFailed]) = true := by decide
-
-/-- [C05, C14] the numeric type switches list the recorded kinds and call the recorded conversions: in particular the
-    `json.Number`, integer and decimal cases of `toDecimal` call no float-typed function -/
-theorem kind_cases : sameSet kindCases [
-  ("toDecimal", ["decimal128.Decimal"], []),
-  ("toDecimal", ["json.Number"], ["decimal128.Parse", "v.String"]),
-  ("toDecimal", ["float32"], ["decimal128.FromFloat32"]),
-  ("toDecimal", ["float64"], ["decimal128.FromFloat64"]),
-  ("toDecimal", ["int8"], ["decimal128.FromInt32", "int32"]),
-  ("toDecimal", ["int16"], ["decimal128.FromInt32", "int32"]),
-  ("toDecimal", ["int32"], ["decimal128.FromInt32"]),
-  ("toDecimal", ["int64"], ["decimal128.FromInt64"]),
-  ("toDecimal", ["int"], ["decimal128.FromInt64", "int64"]),
-  ("toDecimal", ["uint8"], ["decimal128.FromUint32", "uint32"]),
-  ("toDecimal", ["uint16"], ["decimal128.FromUint32", "uint32"]),
-  ("toDecimal", ["uint32"], ["decimal128.FromUint32"]),
-  ("toDecimal", ["uint64"], ["decimal128.FromUint64"]),
-  ("toDecimal", ["uint"], ["decimal128.FromUint64", "uint64"]),
-  ("toFloat", ["float32"], ["float64"]),
-  ("toFloat", ["float64"], []),
-  ("toFloat", ["default"], []),
-  ("toFloatPair", ["float32"], ["float64"]),
-  ("toFloatPair", ["float64"], []),
-  ("toFloatPair", ["default"], []),
-  ("toFloatPair", ["float32"], ["float64"]),
-  ("toFloatPair", ["float64"], []),
-  ("toFloatPair", ["default"], []),
-  ("toInt", ["decimal128.Decimal"], ["v.IsNaN", "v.Int64", "decimal128.FromInt64(i).Equal", "decimal128.FromInt64", "int"]),
-  ("toInt", ["json.Number"], ["v.Int64", "decimal128.Parse", "v.String", "toInt", "v.Float64", "int"]),
-  ("toInt", ["float32"], ["float64", "math.Floor", "float64", "int"]),
-  ("toInt", ["float64"], ["math.Floor", "int"]),
-  ("toInt", ["int8"], ["int"]),
-  ("toInt", ["int16"], ["int"]),
-  ("toInt", ["int32"], ["int"]),
-  ("toInt", ["int64"], ["int"]),
-  ("toInt", ["int"], []),
-  ("toInt", ["uint8"], ["int"]),
-  ("toInt", ["uint16"], ["int"]),
-  ("toInt", ["uint32"], ["int"]),
-  ("toInt", ["uint64"], ["int"]),
-  ("toInt", ["uint"], ["int"]),
-  ("isNumber", ["decimal128.Decimal"], []),
-  ("isNumber", ["json.Number"], []),
-  ("isNumber", ["float32"], []),
-  ("isNumber", ["float64"], []),
-  ("isNumber", ["int8"], []),
-  ("isNumber", ["int16"], []),
-  ("isNumber", ["int32"], []),
-  ("isNumber", ["int64"], []),
-  ("isNumber", ["int"], []),
-  ("isNumber", ["uint8"], []),
-  ("isNumber", ["uint16"], []),
-  ("isNumber", ["uint32"], []),
-  ("isNumber", ["uint64"], []),
-  ("isNumber", ["uint"], []),
-  ("isTrue", ["nil"], []),
-  ("isTrue", ["[]any"], ["len"]),
-  ("isTrue", ["map[string]any"], ["len"]),
-  ("isTrue", ["bool"], []),
-  ("isTrue", ["float32", "float64", "int8", "int16", "int32", "int64", "int", "uint8", "uint16", "uint32", "uint64", "uint", "decimal128.Decimal"], []),
-  ("isTrue", ["string"], ["len"]),
-  ("isTrue", ["json.Number"], ["len"]),
-  ("typeName", ["[]any"], []),
-  ("typeName", ["map[string]any"], []),
-  ("typeName", ["bool"], []),
-  ("typeName", ["decimal128.Decimal", "json.Number", "float32", "float64", "int8", "int16", "int32", "int64", "int", "uint8", "uint16", "uint32", "uint64", "uint"], []),
-  ("typeName", ["string"], []),
-  ("typeName", ["nil"], []),
-  ("toNumber", ["decimal128.Decimal", "json.Number", "float32", "float64", "int8", "int16", "int32", "int64", "int", "uint8", "uint16", "uint32", "uint64", "uint"], []),
-  ("toNumber", ["string"], ["isJSONNumber", "d.UnmarshalJSON", "[]byte"])] = true := by decide
-
-/-- [C12] the node types a string slice is recognised by -/
-theorem slice_nodes : (sliceNodes == ["SliceNode", "SliceCurrentNode", "SliceStepNode", "SliceStepCurrentNode"]) = true := by decide
-
-/-! ### effects -/
-
-def privatePart (p : String × String) : Bool :=
-  p.1 == "alloc" || p.1 == "makeSlice" || p.1 == "makeMap" || p.1 == "fresh" || p.1 == "const" || p.1 == "zero"
-  || p.1 == "scalar" || p.1 == "copy" || p.1 == "initGlobal"
-  || (p.1 == "perCall" && (p.2 == "*lexer.Token" || p.2 == "*lexer.Lexer" || p.2 == "*parser.parser"
-        || p.2 == "*parser.writeVisitor" || p.2 == "*evaluator.evaluator" || p.2 == "*strings.Builder"))
-  -- the Swap methods of the two sort helpers write through the slices the helper was built from (next theorem)
-  || (p.1 == "param" && (p.2 == "evaluator.sortByString" || p.2 == "evaluator.sortByNumber"))
-
-/-- [C06, C07] every store, map update, append, copy, delete, clear and in-place sort of the four packages writes
-    memory that the call itself allocated (or per-call parser/lexer state, or a package variable during init):
-    nothing is written through a parameter of type `any`, `[]any`, `map[string]any`, `parser.Node`, `*Expression`
-    or `*variableScope`, nor through anything loaded from one -/
-theorem effects_private : effects.all (fun e => e.root.all privatePart) = true := by decide
-
-/-- [C06, C07, C13] the sort helpers are built from `slices.Clone` / `make` only -/
-theorem sort_helpers_fresh :
-    (effects.filter (fun e => e.kind == "fieldInit:*evaluator.sortByString" || e.kind == "fieldInit:*evaluator.sortByNumber")).all
-      (fun e => e.root.all (fun p => p.1 == "fresh" || p.1 == "makeSlice")) = true := by decide
-
-/-- [C06, C07] package-level state: the recorded error sentinels and `indentBytes`, all written during init only
-    (`effects_private` accepts stores to globals only with the `initGlobal` tag) -/
-theorem globals_recorded : (globals == [
-  ("jmespath", "ErrEvaluationFailed", "*error"),
-  ("jmespath", "ErrInvalidArity", "*error"),
-  ("jmespath", "ErrInvalidType", "*error"),
-  ("jmespath", "ErrInvalidValue", "*error"),
-  ("jmespath", "ErrNotANumber", "*error"),
-  ("jmespath", "ErrSyntax", "*error"),
-  ("jmespath", "ErrUndefinedVariable", "*error"),
-  ("jmespath", "ErrUnknownFunction", "*error"),
-  ("evaluator", "ErrInfinity", "*error"),
-  ("evaluator", "ErrInvalidType", "*error"),
-  ("evaluator", "ErrInvalidValue", "*error"),
-  ("evaluator", "ErrNotANumber", "*error"),
-  ("evaluator", "ErrUndefinedVariable", "*error"),
-  ("lexer", "errInvalidRune", "*error"),
-  ("lexer", "errUnexpectedEndOfExpression", "*error"),
-  ("parser", "indentBytes", "*[]byte")]) = true := by decide
-
-/-- [C07] no goroutine is started by the library -/
-theorem no_go_statements : (goStatements == []) = true := by decide
-
-/-- [C06] a compiled expression holds the AST and nothing else -/
-theorem expression_fields : (expressionFields == [("node", "parser.Node")]) = true := by decide
-
-
-/-! ### lexer -/
-
-/-- [C04, C10, C16] the rune switch of `Lexer.Next` and the character-class conditions of its scanning helpers are the
-    recorded ones (any added, removed or reordered case or look-ahead breaks this) -/
-theorem lexer_cases_recorded : sameSet lexerCases [
-  ([34], [], [], ["quotedIdentifier"]),
-  ([36], [], [], ["variable"]),
-  ([37], [], ["ModuloToken"], []),
-  ([38], [38], ["AndToken", "ExpressionToken"], []),
-  ([39], [], [], ["stringLiteral"]),
-  ([40], [], ["OpenParenToken"], []),
-  ([41], [], ["CloseParenToken"], []),
-  ([42], [], ["AsteriskToken"], []),
-  ([43], [], ["AddToken"], []),
-  ([44], [], ["CommaToken"], []),
-  ([45], [48, 57], ["SubtractToken"], ["numberLiteral"]),
-  ([46], [42], ["ObjectWildcardToken", "DotToken"], []),
-  ([47], [47], ["IntegerDivideToken", "DivideToken"], []),
-  ([58], [], ["ColonToken"], []),
-  ([60], [61], ["LessOrEqualToken", "LessToken"], []),
-  ([61], [61], ["EqualToken", "AssignToken"], []),
-  ([62], [61], ["GreaterOrEqualToken", "GreaterToken"], []),
-  ([64], [], ["CurrentToken"], []),
-  ([91], [42, 93, 63, 93], ["ArrayWildcardToken", "FilterToken", "FlattenToken", "OpenSqBraceToken"], []),
-  ([93], [], ["CloseSqBraceToken"], []),
-  ([96], [], [], ["jsonLiteral"]),
-  ([123], [], ["OpenBraceToken"], []),
-  ([124], [124], ["OrToken", "PipeToken"], []),
-  ([125], [], ["CloseBraceToken"], []),
-  ([215], [], ["MultiplyToken"], []),
-  ([247], [], ["DivideToken"], []),
-  ([8722], [], ["SubtractToken"], []),
-  ([], [], [], ["r == '!'"]),
-  ([], [61], ["NotEqualToken", "NotToken"], []),
-  ([], [], [], ["r >= '0' && r <= '9'"]),
-  ([], [], [], ["numberLiteral"]),
-  ([], [], [], ["r >= 'A' && r <= 'Z' || r >= 'a' && r <= 'z' || r == '_'"]),
-  ([], [], [], ["unquotedIdentifier"])] = true := by decide
-
-/-- [C04, C16] conditions of the scanning helpers as recorded -/
-theorem lexer_conds_recorded : sameSet lexerConds [
-  ("numberLiteral", "err == nil && (r >= '0' && r <= '9')"),
-  ("unquotedIdentifier", "err == nil && (r >= '0' && r <= '9' || r >= 'A' && r <= 'Z' || r >= 'a' && r <= 'z' || r == '_')"),
-  ("unquotedIdentifier", "case \"in\""),
-  ("unquotedIdentifier", "case \"let\""),
-  ("variable", "err != nil || !(r >= 'A' && r <= 'Z' || r >= 'a' && r <= 'z' || r == '_')"),
-  ("variable", "err == nil && (r >= '0' && r <= '9' || r >= 'A' && r <= 'Z' || r >= 'a' && r <= 'z' || r == '_')"),
-  ("jsonLiteral", "err != nil"),
-  ("jsonLiteral", "r == '`'"),
-  ("jsonLiteral", "r == '\\\\'"),
-  ("jsonLiteral", "err != nil"),
-  ("quotedIdentifier", "err != nil"),
-  ("quotedIdentifier", "r == '\"'"),
-  ("quotedIdentifier", "r == '\\\\'"),
-  ("quotedIdentifier", "err != nil"),
-  ("stringLiteral", "err != nil"),
-  ("stringLiteral", "r == '\\''"),
-  ("stringLiteral", "r == '\\\\'"),
-  ("stringLiteral", "err != nil"),
-  ("decodeRune", "sz == 0"),
-  ("decodeRune", "r == utf8.RuneError && sz == 1")] = true := by decide
-
-/-- inputs that exercise every case of the switch: (input, token type, token length) -/
-def lexProbes : List (Bytes × TokenType × Nat) := [
-  ([37, 97], TokenType.modulo, 1),
-  ([40, 97], TokenType.openParen, 1),
-  ([41, 97], TokenType.closeParen, 1),
-  ([42, 97], TokenType.asterisk, 1),
-  ([43, 97], TokenType.add, 1),
-  ([44, 97], TokenType.comma, 1),
-  ([58, 97], TokenType.colon, 1),
-  ([64, 97], TokenType.current, 1),
-  ([93, 97], TokenType.closeSqBrace, 1),
-  ([123, 97], TokenType.openBrace, 1),
-  ([125, 97], TokenType.closeBrace, 1),
-  ([195, 151, 97], TokenType.multiply, 2),
-  ([195, 183, 97], TokenType.divide, 2),
-  ([226, 136, 146, 97], TokenType.subtract, 3),
-  ([38, 38, 97], TokenType.and, 2),
-  ([38, 97], TokenType.expression, 1),
-  ([46, 42, 97], TokenType.objectWildcard, 2),
-  ([46, 97], TokenType.dot, 1),
-  ([47, 47, 97], TokenType.integerDivide, 2),
-  ([47, 97], TokenType.divide, 1),
-  ([60, 61, 97], TokenType.lessOrEqual, 2),
-  ([60, 97], TokenType.less, 1),
-  ([61, 61, 97], TokenType.equal, 2),
-  ([61, 97], TokenType.assign, 1),
-  ([62, 61, 97], TokenType.greaterOrEqual, 2),
-  ([62, 97], TokenType.greater, 1),
-  ([124, 124, 97], TokenType.or, 2),
-  ([124, 97], TokenType.pipe, 1),
-  ([33, 61, 97], TokenType.notEqual, 2),
-  ([33, 97], TokenType.not, 1),
-  ([91, 42, 93, 97], TokenType.arrayWildcard, 3),
-  ([91, 63, 97], TokenType.filter, 2),
-  ([91, 93, 97], TokenType.flatten, 2),
-  ([91, 97], TokenType.openSqBrace, 1),
-  ([91, 42, 97], TokenType.openSqBrace, 1),
-  ([45, 97], TokenType.subtract, 1),
-  ([45, 49, 50, 97], TokenType.integerLiteral, 3),
-  ([49, 50, 97], TokenType.integerLiteral, 2),
-  ([48], TokenType.integerLiteral, 1),
-  ([36], TokenType.root, 1),
-  ([36, 46], TokenType.root, 1),
-  ([36, 97, 49, 95, 32], TokenType.variable, 4),
-  ([36, 49], TokenType.root, 1),
-  ([97, 98, 99, 95, 57, 32], TokenType.unquotedIdentifier, 5),
-  ([95, 120], TokenType.unquotedIdentifier, 2),
-  ([105, 110, 32], TokenType.«in», 2),
-  ([108, 101, 116, 32], TokenType.«let», 3),
-  ([108, 101, 116, 115], TokenType.unquotedIdentifier, 4),
-  ([105, 110, 110], TokenType.unquotedIdentifier, 3),
-  ([34, 97, 92, 34, 98, 34, 32], TokenType.quotedIdentifier, 6),
-  ([39, 97, 92, 39, 98, 39, 32], TokenType.stringLiteral, 6),
-  ([96, 97, 92, 96, 98, 96, 32], TokenType.jsonLiteral, 6)]
-
-/-- [C04, C10, C16] on every probe the model's `lexToken` produces that token with that extent -/
-theorem lexer_model_probes :
-    lexProbes.all (fun p => match lexToken p.1 with
-      | .ok (t, n) => t.type == p.2.1 && n == p.2.2 && t.value == p.1.take p.2.2
-      | .error _ => false) = true := by decide
-
-/-- [C04] every token type the Go switch can produce is produced by the model on a probe starting with a rune of that case -/
-theorem lexer_cases_covered :
-    lexerCases.all (fun row => row.2.2.1.all (fun name =>
-      lexProbes.any (fun p => tokOfName name == some p.2.1))) = true := by decide
-
-end Jmes.Tie
+-- all tie modules (not part of the `Jmes` root: each is built and attributed separately by bin/vf)
+import Jmes.Tie.Tokens
+import Jmes.Tie.Builtins
+import Jmes.Tie.Errors
+import Jmes.Tie.Kinds
+import Jmes.Tie.Effects
+import Jmes.Tie.Lexer
